@@ -259,7 +259,10 @@ Section Loop.
   | TaskOk (batches : list (list R))   (* what the collection received *)
   | TaskHangs.                         (* _flush_results_buffer spins *)
 
-  (* execute: _run_search, then `finally: self._flush_results_buffer()` *)
+  (* execute: _run_search, then `finally: self._flush_results_buffer()`.
+     (The real execute returns early for a zero-length file; here lines = []
+     gives the same empty collection as long as [post] yields nothing for
+     handlers that never saw a line.  results_store.sync() is C02/C05's.) *)
   Definition execute (ds : list D) (lines : list line) : task_result :=
     let st := flush (run_search ds lines) in
     if t_div st then TaskHangs else TaskOk (t_coll st).
